@@ -9,13 +9,21 @@ specs Cache.tla / CacheTrace.tla.
   code -> spec : the recorded observations (TLC's histories and seeded random
                  long ones) go back to TLC (CacheTrace.tla), which evaluates
                  V_C10 on the REAL observation and the conformance with the model.
+
+Pool steps whose workers request every example twice ("pft" = tile(2).prefetch,
+"pfd" = [[0,0,1,1,..]].prefetch) are executed under the line-level controlled
+scheduler (harness/detsched.py, every source line of core.py is a scheduling
+point, seeded per history): the check-then-act race of CacheDataset.__getitem__
+(open defect S21) is found deterministically; its design-level demonstration is
+specs/CacheRace.tla (TLC refutes OnceInv / FirstValueInv for Atomic = FALSE).
 """
 import json
 import multiprocessing as mp
 import random
+import re
 import signal
 import warnings
-from . import common, tlc
+from . import common, findings, tlc
 from .common import Result
 from .pipeline import validate_records
 
@@ -25,7 +33,7 @@ LOW = 1 << 20            # after MemDrop (threshold is '1 GB')
 
 
 def cfg(pars, depth, idx, keys, starts, sub, up, freeze, maxinst, pf, maxup, maxpf,
-        emit=True, design=False):
+        pft='PftNone', emit=True, design=False):
     inv = ''
     if emit:
         inv += 'INVARIANT EmitHistory\n'
@@ -43,6 +51,7 @@ def cfg(pars, depth, idx, keys, starts, sub, up, freeze, maxinst, pf, maxup, max
   FreezeVals = {freeze}
   MaxInst = {maxinst}
   PfForms <- {pf}
+  PftForms <- {pft}
   MaxUp = {maxup}
   MaxPf = {maxpf}
 SPECIFICATION Spec
@@ -64,6 +73,10 @@ CORE = dict(idx='IdxC3', keys='{"c"}', starts='{1}', sub='SubZ', up='{2}', freez
 # prefetch(2,2), copy, MemDrop, ups[len-1]
 SMALL = dict(idx='IdxS3', keys='{"c"}', starts='{}', sub='SubZ', up='{2}', freeze='{0}',
              maxinst=2, pf='Pf2', maxup=1, maxpf=1)
+# pool workers that request every example twice (S21), around them: c[len-1], c[-1],
+# c['c'], list(c), copy, MemDrop, ups[len-1]
+RACE = dict(idx='IdxS3', keys='{"c"}', starts='{}', sub='SubZ', up='{2}', freeze='{0}',
+            maxinst=2, pf='Pf2', maxup=1)
 
 TIERS = {
     'quick': {
@@ -72,8 +85,11 @@ TIERS = {
             ('lazy-n3-d3', dict(pars='ParsLazy3', depth=3, **MID), None),
             ('lazy-n3-d4-small', dict(pars='ParsLazy3r', depth=4, **SMALL), None),
             ('eager-n3-d3-small', dict(pars='ParsEager3r', depth=3, **SMALL), None),
+            ('lazy-n3-d3-race', dict(pars='ParsLazy3', depth=3, pft='PftF3', maxpf=2, **RACE),
+             None),
         ],
-        'design': dict(pars='ParsLazy3', depth=4, **SMALL),
+        'design': dict(pars='ParsLazy3', depth=4, pft='PftQ3', **SMALL),
+        'race': [dict(n=3, w=2, b=4, shape='tile'), dict(n=3, w=2, b=2, shape='dup')],
         'random': {'count': 1500, 'steps': (10, 30)},
     },
     'thorough': {
@@ -86,8 +102,19 @@ TIERS = {
                                      up='{1}', freeze='{0, 1}', maxinst=3, pf='Pf123',
                                      maxup=1, maxpf=1), 100000),
             ('eager-n3-d3', dict(pars='ParsEager3', depth=3, **MID), None),
+            ('lazy-n3-d4-race', dict(pars='ParsLazy3m', depth=4, pft='PftF3', maxpf=2, **RACE),
+             150000),
+            ('lazy-n2-d4-race', dict(pars='ParsLazy2', depth=4, idx='IdxF2', keys='{"b"}',
+                                     starts='{}', sub='SubZ', up='{1}', freeze='{0, 1}',
+                                     maxinst=2, pf='Pf2', maxup=1, pft='PftF2', maxpf=3),
+             100000),
+            ('eager-n3-d3-race', dict(pars='ParsEager3r', depth=3, pft='PftQ3', maxpf=2,
+                                      **RACE), None),
         ],
-        'design': dict(pars='ParsLazy3', depth=5, **CORE),
+        'design': dict(pars='ParsLazy3', depth=5, pft='PftQ3', **CORE),
+        'race': [dict(n=3, w=2, b=4, shape='tile'), dict(n=3, w=2, b=2, shape='dup'),
+                 dict(n=3, w=3, b=6, shape='tile'), dict(n=3, w=3, b=3, shape='dup'),
+                 dict(n=2, w=2, b=3, shape='tile')],
         'random': {'count': 100000, 'steps': (10, 30)},
     },
 }
@@ -130,9 +157,62 @@ def _enc(v):
     return {'i': -9, 'k': -9}
 
 
-def execute(par, hist, timeout=20.0):
+RACE_OPS = ('pft', 'pfd')
+STAYS = (0.5, 0.7, 0.8, 0.9)
+
+
+class _SchedulerGaveUp(Exception):
+    """The controlled scheduler aborted (deadlock / runaway): machinery."""
+
+
+def _scheduled(ds, seed):
+    """list(ds) with the pool workers of `ds` (thread back end) scheduled at
+    SOURCE-LINE granularity inside lazy_dataset/core.py under a seeded sticky
+    random schedule.  Returns (values, info)."""
+    import lazy_dataset.core as core
+    from . import conc, detsched
+    rng = random.Random(seed)
+    stay = rng.choice(STAYS)
+    ctl = detsched.Controlled(conc.sticky_chooser(rng.randrange(1 << 30), stay),
+                              line_files=(core.__file__,))
+    out, err, aborted = [], None, None
+    with ctl as sched:
+        sched.item_code = lambda item: -1       # values are not part of the event log
+        sched.max_events = 20000
+        try:
+            out = list(ds)
+        except detsched.Abort:
+            aborted = str(sched.abort_reason)
+        except _Timeout:
+            raise
+        except BaseException as e:              # noqa: re-raised below
+            err = e
+        if aborted is None:
+            try:
+                sched.idle_until_quiescent()
+            except detsched.Abort:
+                aborted = str(sched.abort_reason)
+    dec = sched.decisions
+    info = {'seed': seed, 'stay': stay, 'decisions': len(dec), 'threads': len(sched.vts),
+            'switches': sum(1 for j in range(1, len(dec)) if dec[j][1] != dec[j - 1][1]),
+            'thread_errors': list(sched.thread_errors), 'aborted': aborted}
+    if aborted is not None:
+        raise _SchedulerGaveUp(aborted)
+    if err is not None:
+        raise err
+    return out, info
+
+
+def step_seed(seed, par, hist, t):
+    import zlib
+    return (zlib.crc32(json.dumps([par, hist, t], sort_keys=True).encode()) + 1000003 * seed) \
+        % (1 << 31)
+
+
+def execute(par, hist, timeout=20.0, seed=None):
     """Run `hist` on ds.cache(); returns the observation record (shape of
-    Cache.tla ModelRun)."""
+    Cache.tla ModelRun) plus, under 'pool', what the controlled scheduler did
+    in every "pft" / "pfd" step (not part of the observation TLC judges)."""
     import psutil
     import lazy_dataset
     from lazy_dataset.core import CacheDataset
@@ -156,6 +236,9 @@ def execute(par, hist, timeout=20.0):
     signal.setitimer(signal.ITIMER_REAL, timeout)
     steps = []
     init = None
+    pool = []
+    if seed is None:
+        seed = common.seed()
     try:
         with warnings.catch_warnings():
             warnings.simplefilter('ignore')
@@ -181,7 +264,7 @@ def execute(par, hist, timeout=20.0):
             import zlib
             iter_mode = zlib.crc32(json.dumps(hist, sort_keys=True).encode()) % 2 == 0
             open_its = {}       # instance number -> [iterator, next index]
-            for s in hist:
+            for t, s in enumerate(hist):
                 exc, vs, ks = 'none', [], []
                 try:
                     op = s['op']
@@ -213,6 +296,18 @@ def execute(par, hist, timeout=20.0):
                         vs = [_enc(v) for _, v in kv]
                     elif op == 'pf':
                         vs = [_enc(v) for v in ds.prefetch(s['w'], s['b'])]
+                    elif op in RACE_OPS:
+                        # every example is requested twice; the pool workers are
+                        # scheduled line by line inside core.py (seeded)
+                        if op == 'pft':
+                            twice = ds.tile(2)
+                        else:
+                            twice = ds[[i // 2 for i in range(2 * n)]]
+                        got, info = _scheduled(twice.prefetch(s['w'], s['b']),
+                                               step_seed(seed, par, hist, t))
+                        info['t'] = t
+                        pool.append(info)
+                        vs = [_enc(v) for v in got]
                     elif op == 'copy':
                         insts.append(ds.copy(freeze=bool(s['i'])))
                     elif op == 'drop':
@@ -223,6 +318,9 @@ def execute(par, hist, timeout=20.0):
                         raise ValueError(op)
                 except _Timeout:
                     raise
+                except _SchedulerGaveUp as e:
+                    pool.append({'t': t, 'aborted': str(e), 'thread_errors': []})
+                    exc, vs, ks = 'SCHEDULER-ABORT', [], []
                 except BaseException as e:      # noqa: the class is the observation
                     exc, vs, ks = type(e).__name__, [], []
                 steps.append({'exc': exc, 'vs': vs, 'ks': ks, 'calls': list(calls)})
@@ -235,7 +333,7 @@ def execute(par, hist, timeout=20.0):
         signal.setitimer(signal.ITIMER_REAL, 0)
         signal.signal(signal.SIGALRM, old)
         psutil.virtual_memory = orig_vm
-    return {'init': init, 'steps': steps}
+    return {'init': init, 'steps': steps, 'pool': pool}
 
 
 def _execute_chunk(chunk):
@@ -301,9 +399,17 @@ def random_histories(seed, count, steps):
                 hist.append(step('it', j))
             elif x < 0.75:
                 hist.append(step('items', j))
-            elif x < 0.79:
+            elif x < 0.78:
                 w = rng.choice((1, 2, 3))
                 hist.append(step('pf', j, w=w, b=w + rng.choice((0, 1))))
+            elif x < 0.80:
+                # pool workers that request every example twice (tile: the two
+                # requests meet only when more than n tasks are in flight)
+                w = rng.choice((2, 2, 3))
+                if rng.random() < 0.5:
+                    hist.append(step('pft', j, w=w, b=rng.choice((w, n + 1, n + 2, 2 * n))))
+                else:
+                    hist.append(step('pfd', j, w=w, b=w + rng.choice((0, 1))))
             elif x < 0.87 and ninst < 4:
                 hist.append(step('copy', j, i=rng.choice((0, 1))))
                 ninst += 1
@@ -333,6 +439,8 @@ def short(par, hist):
             'sg': f"{c}[{s['s']}:][{s['i']}]", 'si': f"list({c}[{s['s']}:])",
             'it': f'list({c})', 'items': f'list({c}.items())',
             'pf': f"list({c}.prefetch({s['w']},{s['b']}))",
+            'pft': f"list({c}.tile(2).prefetch({s['w']},{s['b']}))",
+            'pfd': f"list({c}[[0,0,1,1,..]].prefetch({s['w']},{s['b']}))",
             'copy': f"{c}.copy(freeze={bool(s['i'])})", 'drop': 'MemDrop',
             'up': f"ups[{s['i']}]"}.get(op, op))
     return head + '; ' + '; '.join(out)
@@ -341,8 +449,9 @@ def short(par, hist):
 # ---------------------------------------------------------------------------
 # known findings (reporting only; nothing is loosened)
 
-def match_finding(par, hist, verdict):
-    """S6 (open): the violation is exactly what the original-behaviour model
+def match_finding(par, hist, verdict, obs):
+    """S21 (open): harness/findings.py match_cache.
+    S6 (while open): the violation is exactly what the original-behaviour model
     predicts (conformance with the model that has S6 in Unfixed, model verdict
     equal to the real one) and the history reads an in-range NEGATIVE int index
     on the lazy cache."""
@@ -354,10 +463,86 @@ def match_finding(par, hist, verdict):
         if par['lazy'] and neg and verdict['conf'] == 'conforms' \
                 and list(verdict['mv']) == list(verdict['C10']):
             return f
-    return None
+    return findings.match_cache('C10', verdict['C10'][1], par, hist, obs, verdict)
+
+
+def raced_examples(par, hist, obs):
+    """[(step number, example)] : a pool step that requests every example twice
+    computed the example twice although the cache was storing (no MemDrop so far)."""
+    out, low = [], False
+    before = obs['init']
+    for t, (s, o) in enumerate(zip(hist, obs['steps'])):
+        if s['op'] == 'drop' and par['keep'] == 'thr':
+            low = True
+        if s['op'] in RACE_OPS and par['lazy'] and not low:
+            out += [(t, e) for e in range(len(before)) if o['calls'][e] - before[e] >= 2]
+        before = o['calls']
+    return out
 
 
 # ---------------------------------------------------------------------------
+
+RACE_CFG = '''CONSTANTS
+  N = {n}
+  W = {w}
+  B = {b}
+  Shape = "{shape}"
+  Atomic = {atomic}
+SPECIFICATION Spec
+INVARIANT TypeOK
+{invs}CHECK_DEADLOCK FALSE
+'''
+_STATE = re.compile(r'^State \d+: <(\w+)')
+
+
+def race_design(plans, workers=None):
+    """TLC on specs/CacheRace.tla (the worker pool over the shared cache, one get =
+    lookup / compute / store).  Atomic = TRUE (the repaired design, = the
+    sequentialisation Cache.tla uses for "pft" / "pfd") must satisfy OnceInv,
+    FirstValueInv and Answered; while S21 is open, Atomic = FALSE (the code) must
+    be refuted on OnceInv and on FirstValueInv: the design-level demonstration
+    of S21.  Returns (tlc stats summed, info, machinery errors)."""
+    is_open = 'S21' in common.unfixed_ids()
+    stats = {'generated': 0, 'distinct': 0}
+    info, errors = [], []
+
+    def one(plan, atomic, invs):
+        d = tlc.prepare()
+        text = RACE_CFG.format(atomic='TRUE' if atomic else 'FALSE',
+                               invs=''.join(f'INVARIANT {i}\n' for i in invs), **plan)
+        r = tlc.run('CacheRace.tla', 'MC_race.cfg', workdir=d, cfg_text=text, timeout=900,
+                    workers=workers)
+        for k in stats:
+            stats[k] += r['stats'][k]
+        return r
+    for plan in plans:
+        name = '{shape} N={n} W={w} B={b}'.format(**plan)
+        r = one(plan, True, ['OnceInv', 'FirstValueInv', 'Answered'])
+        holds = r['rc'] == 0 and not r['errors']
+        rec = {'config': name, 'atomic_holds': holds, 'atomic_tlc': r['stats']}
+        if not holds:
+            errors.append(f'CacheRace.tla {name} Atomic=TRUE: the repaired design is not proved: '
+                          f"rc={r['rc']} {' | '.join(r['errors'][:4])}")
+        if is_open:
+            for inv in ('OnceInv', 'FirstValueInv'):
+                r = one(plan, False, [inv])
+                refuted = any(f'Invariant {inv} is violated' in e for e in r['errors'])
+                trace = []
+                with open(r['out_path'], errors='replace') as f:
+                    for line in f:
+                        m = _STATE.match(line)
+                        if m and m.group(1) != 'Initial':
+                            trace.append(m.group(1))
+                rec[f'code_refutes_{inv}'] = refuted
+                rec[f'counterexample_{inv}'] = ' '.join(trace)
+                if not refuted:
+                    errors.append(f'CacheRace.tla {name} Atomic=FALSE: TLC does not refute {inv} '
+                                  f"(S21 is open): rc={r['rc']} {' | '.join(r['errors'][:4])}")
+        else:
+            rec['code_model'] = 'not run: S21 is not open'
+        info.append(rec)
+    return stats, info, errors
+
 
 def design_check(kw, workers=None):
     """TLC on the design itself: the repaired model satisfies every invariant;
@@ -401,12 +586,15 @@ def run(prop, tier):
         w = max(2, common.NCPU // par_runs)
         with ThreadPoolExecutor(par_runs) as ex:
             fd = ex.submit(design_check, plan['design'], w)
+            fr = ex.submit(race_design, plan['race'], 2)
             fe = [ex.submit(enumerate_histories, cfg(**kw), None, 3600, w)
                   for _, kw, _ in plan['bfs']]
             st, info, errs = fd.result()
+            rst, race_info, rerrs = fr.result()
             enumerated = [f.result() for f in fe]
         res.add_tlc(st)
-        res.machinery_errors += errs
+        res.add_tlc(rst)
+        res.machinery_errors += errs + rerrs
         jobs = {}
         for (name, kw, budget), (recs, st) in zip(plan['bfs'], enumerated):
             res.add_tlc(st)
@@ -439,6 +627,7 @@ def run(prop, tier):
                         'steps': list(rp['steps'])})
         jobs = list(jobs.values())
         obs = execute_all([(j['par'], j['hist']) for j in jobs])
+        pools = [o.pop('pool') for o in obs]
         records = [{'id': i + 1, 'par': j['par'], 'hist': j['hist'], 'obs': o}
                    for i, (j, o) in enumerate(zip(jobs, obs))]
         verdicts, st = validate_records(records, module='CacheTrace.tla', cfg='CacheTrace.cfg',
@@ -449,10 +638,45 @@ def run(prop, tier):
         return res.finish()
     res.coverage['configs'] = configs
     res.coverage['design'] = info
+    res.coverage['design_CacheRace'] = race_info
+    # pool steps under the controlled scheduler
+    ps = {'rule': 'steps "pft" = list(c.tile(2).prefetch(w, b)) and "pfd" = '
+                  'list(c[[0,0,1,1,..]].prefetch(w, b)), w >= 2, thread back end, executed with '
+                  'every source line of lazy_dataset/core.py as a scheduling point under a sticky '
+                  'random schedule seeded from (VERIF_SEED, history, step); raced = some example '
+                  'was computed twice inside the step while the cache was storing',
+          'executed': {}, 'raced': {}, 'histories_with_pool_step': 0, 'histories_raced': 0,
+          'decisions': 0, 'switches': 0, 'max_threads': 0}
+    for rec, pl in zip(records, pools):
+        if not pl:
+            continue
+        ps['histories_with_pool_step'] += 1
+        raced_at = {t for t, _ in raced_examples(rec['par'], rec['hist'], rec['obs'])}
+        ps['histories_raced'] += bool(raced_at)
+        for i in pl:
+            s = rec['hist'][i['t']]
+            text = short(rec['par'], rec['hist'])
+            if i.get('aborted') is not None:
+                res.machinery_errors.append(f"controlled scheduler gave up ({i['aborted']}) in "
+                                            f"step {i['t'] + 1} of {text}")
+                continue
+            if i['thread_errors']:
+                res.machinery_errors.append(f"exception escaped a pool thread {i['thread_errors']} "
+                                            f"in step {i['t'] + 1} of {text}")
+            form = f"{s['op']}({s['w']},{s['b']})"
+            ps['executed'][form] = ps['executed'].get(form, 0) + 1
+            if i['t'] in raced_at:
+                ps['raced'][form] = ps['raced'].get(form, 0) + 1
+            ps['decisions'] += i['decisions']
+            ps['switches'] += i['switches']
+            ps['max_threads'] = max(ps['max_threads'], i['threads'])
+    ps['executed_total'] = sum(ps['executed'].values())
+    ps['raced_total'] = sum(ps['raced'].values())
+    res.coverage['pool_steps_scheduled'] = ps
     res.coverage['traces_validated_against_impl'] = len(records)
     res.coverage['evaluations'] = len(records)
     by_clause, known, samples, nontrivial = {}, {}, [], 0
-    viol_counts = {}
+    viol_counts, known_clauses = {}, {}
     for rec, j in zip(records, jobs):
         v = verdicts[rec['id']]
         status, clause = v[prop]
@@ -463,18 +687,22 @@ def run(prop, tier):
             if len(samples) < 4 and rec['id'] % 101 == 0:
                 samples.append({'history': text, 'verdict': clause,
                                 'returned': [s['vs'] or s['exc'] for s in rec['obs']['steps']]})
-        if v['conf'] != 'conforms':
+        kf = match_finding(rec['par'], rec['hist'], v, rec['obs']) if status == 'viol' else None
+        # (a recorded defect the model deliberately does not predict - S21, the
+        # model is the sequentialised pool - is reported as the finding, not as drift)
+        if v['conf'] != 'conforms' and kf is None:
             res.drift.append({'where': v['conf'], 'history': text})
         if status != 'viol':
             if v['mv'][0] == 'viol':
                 res.drift.append({'where': 'model-verdict', 'history': text, 'model': v['mv']})
             continue
-        kf = match_finding(rec['par'], rec['hist'], v)
         if kf is not None:
             known[kf['id']] = known.get(kf['id'], 0) + 1
+            known_clauses[f"{kf['id']}:{clause}"] = known_clauses.get(f"{kf['id']}:{clause}", 0) + 1
             if known[kf['id']] == 1:
                 res.known_finding(kf['id'], f"{kf['what']} [{clause}] e.g. {text} -> "
-                                  f"{[s['vs'] or s['exc'] for s in rec['obs']['steps']]}")
+                                  f"{[s['vs'] or s['exc'] for s in rec['obs']['steps']]} "
+                                  f"upstream calls {rec['obs']['steps'][-1]['calls']}")
             continue
         # every violating history is counted; at most 5 replay files per clause
         # and 25 in total are written
@@ -485,6 +713,7 @@ def run(prop, tier):
                       {'family': 'cache', 'par': rec['par'], 'hist': rec['hist'],
                        'obs': rec['obs'], 'verdict': [status, clause],
                        'model_verdict': v['mv'], 'conformance': v['conf'],
+                       'relaxed_verdict_S21': v['s21'], 'seed': common.seed(),
                        'how': 'real observation judged by TLC (CacheTrace.tla, V_C10)'})
     res.coverage['violating_histories'] = viol_counts
     if not samples and records:
@@ -494,6 +723,7 @@ def run(prop, tier):
     res.coverage['distinct_nontrivial'] = nontrivial
     res.coverage['verdicts'] = by_clause
     res.coverage['known_finding_hits'] = known
+    res.coverage['known_finding_hits_by_clause'] = known_clauses
     res.coverage['rule'] = (
         'histories = all step sequences TLC enumerates from Cache.tla (BFS, every parameter '
         'record of the config) plus seeded random long ones; each is executed once on the real '
@@ -504,8 +734,14 @@ def run(prop, tier):
         'patching psutil.virtual_memory is how available memory reaches CacheDataset.check()',
         'memory is monotone inside a history (the scope of the quantifier of C10); a copy taken '
         'after memory recovers may cache again (latch is per instance) - out of scope',
-        'prefetch with >= 2 thread workers is sequentialised in the model: the workers touch '
-        'distinct examples and memory does not move inside one step',
+        'prefetch with >= 2 thread workers is sequentialised in the model (memory does not move '
+        'inside one step): for "pf" the workers touch distinct examples; for "pft" / "pfd" they '
+        'request every example twice - the sequentialisation is the repaired design (atomic get, '
+        'CacheRace.tla Atomic = TRUE), the interleavings of the code are CacheRace.tla Atomic = '
+        'FALSE and, on the real library, the seeded line-level schedules (sampling, not all '
+        'interleavings)',
+        'the upstream function of the executions (counter + value) is one scheduling unit: the '
+        'controlled scheduler preempts only inside lazy_dataset/core.py and at pool operations',
     ]
     return res.finish()
 
@@ -513,10 +749,14 @@ def run(prop, tier):
 def replay(prop, path):
     with open(path) as f:
         rp = json.load(f)
-    o = execute(rp['par'], rp['hist'])
+    # the pool steps re-run under the schedule of the recorded run
+    o = execute(rp['par'], rp['hist'], seed=rp.get('seed'))
+    pool = o.pop('pool')
     v, _ = validate_records([{'id': 1, 'par': rp['par'], 'hist': rp['hist'], 'obs': o}],
                             module='CacheTrace.tla', cfg='CacheTrace.cfg')
     print('history :', short(rp['par'], rp['hist']))
     print('verdict :', v[1][prop], ' model:', v[1]['mv'], ' conformance:', v[1]['conf'])
+    if pool:
+        print('s21-relaxed:', v[1]['s21'], ' pool steps:', json.dumps(pool)[:600])
     print('observed:', json.dumps(o)[:2000])
     return 1 if v[1][prop][0] == 'viol' else 0
